@@ -55,11 +55,11 @@ from verif.mc import pool as P
 
 LEVEL = "exploration"
 
-KINDS = ["txt", "html", "docx", "xlsx", "pdf", "eml", "empty", "dir", "hidden", "bin"]
-DOC_KINDS = ("txt", "html", "docx", "xlsx", "pdf", "eml")
+KINDS = ["txt", "html", "docx", "xlsx", "pdf", "eml", "xls", "ppt", "empty", "dir", "hidden", "bin"]
+DOC_KINDS = ("txt", "html", "docx", "xlsx", "pdf", "eml", "xls", "ppt")   # xls/ppt: legacy readers have their own error class
 RESULT_KINDS = DOC_KINDS + ("empty", "between")        # supported visible members
 STREAM_KINDS = DOC_KINDS + ("hidden", "bin")           # members that own a non-empty data stream
-EXT = {"txt": "txt", "html": "html", "docx": "docx", "xlsx": "xlsx", "pdf": "pdf", "eml": "eml", "empty": "txt", "hidden": "txt",
+EXT = {"txt": "txt", "html": "html", "docx": "docx", "xlsx": "xlsx", "pdf": "pdf", "eml": "eml", "xls": "xls", "ppt": "ppt", "empty": "txt", "hidden": "txt",
        "bin": "bin"}
 ZIP_COMP = ["stored", "deflated", "mixed"]
 TAR_COMP = ["plain", "gz", "bz2", "xz"]
@@ -107,6 +107,13 @@ def member_bytes(seed, pos, kind):
         b = pdfw.pdf(["doc", {}, [["unit", [_p(t["b1"]), _p(t["b2"])], {}]]])
     elif kind == "eml":
         b = mail.eml({"structure": "plain", "body_plain": t["b1"] + "\n" + t["b2"], "subject": ["ascii", t["h"]]})
+    elif kind == "xls":
+        from verif.gen import biff8
+        c = t["c"]
+        b = biff8.xls(["doc", {}, [["sheet", t["sheet"], [[["s", c[0]], ["s", c[1]]], [["s", c[2]], ["i", 7 + pos]]]]]])
+    elif kind == "ppt":
+        from verif.gen import pptbin
+        b = pptbin.ppt(["doc", {}, [["unit", [["h", 1, [["t", t["h"]]]], _p(t["b1"])], {}]]])
     elif kind == "empty":
         b = b""
     elif kind == "hidden":
